@@ -713,7 +713,7 @@ class Gen:
         ptext, names, _ = self.params("generator")
         body = self.function_body("generator", names)
         consume = r.choice(["[...%s]", "Array.from(%s)", "%s.next().value", "((g) => [g.next(1), g.next(2), g.return(7), g.next()])(%s)",
-                            "((g) => { try { return [g.next(), g.throw(new RangeError('t')), g.next()] } catch (e) { return ['caught', e] } })(%s)"])
+                            "((g) => { try { return [g.next(), g.throw(new RangeError('t')), g.next()] } catch (e) { return ['caught', __show(e)] } })(%s)"])
         if "%s.next()" in consume or consume.startswith("[...") or consume.startswith("Array.from"):
             pass
         return consume % ("(function*(%s) %s)(%s)" % (ptext, body, self.args(d, r.below(3))))
